@@ -142,6 +142,12 @@ impl<K: PartialEq + Copy> HashSet<K> {
     pub fn drain(&mut self) -> std::vec::Drain<'_, K> {
         self.items.drain(..)
     }
+    pub fn new() -> Self {
+        HashSet { items: Vec::new() }
+    }
+    pub fn iter(&self) -> core::slice::Iter<'_, K> {
+        self.items.iter()
+    }
 }
 
 // ------------------------------------------------------------ values
